@@ -685,13 +685,20 @@ def crash_site(output):
 
 def run_check(pid, level, fn):
     """Entry point used by bin/vcheck: wraps fn(check) with the exit-code contract."""
+    c = None
     try:
         c = Check(pid, level)
         fn(c)
         rc = c.finish()
     except Infra as e:
-        log("NO-VERDICT property=%s: %s" % (pid, e))
-        rc = 2
+        if c is not None and c.violations:
+            # violations reproduced on the real code before a later stage broke down remain the verdict
+            c.notes.append("a later stage ended without a verdict: %s" % str(e)[:300])
+            log("(a later stage ended without a verdict: %s)" % str(e)[:300])
+            rc = c.finish()
+        else:
+            log("NO-VERDICT property=%s: %s" % (pid, e))
+            rc = 2
     except Exception:
         import traceback
         log("NO-VERDICT property=%s: internal error\n%s" % (pid, traceback.format_exc()))
